@@ -112,3 +112,51 @@ Example c16_witness :
   go true = Some ([(0, 4)], [(0, SErr 4); (1, SOk); (2, SPanic); (3, SErr 9)], [(0, 4); (3, 9)], WExited) /\
   go false = Some ([], [(0, SErr 4); (1, SOk); (2, SPanic); (3, SErr 9)], [], WExited).
 Proof. vm_compute. split; reflexivity. Qed.
+
+(* ==== added after the audit of 2026-10-02 (selftest/audit/REPORT-2026-10-02.md) ==== *)
+Require Import Cadence.Proofs.AuditQ.
+
+(* the handler log at the end of EVERY maximal background schedule: extended by exactly the
+   failures among the pending metrics paired with the outcomes the schedule's completions
+   carried (one outcome per pending metric); nothing without a handler *)
+Theorem c16_any_schedule : forall cap handler evs s rs wevs s' wrs,
+  Queue.run true (init_q cap handler) evs = Some (s, rs) ->
+  Forall worker_side wevs -> Queue.run true s wevs = Some (s', wrs) -> stuck true s' ->
+  q_handled s' = q_handled s ++
+    (if handler then errs (combine (pending_ids s) (finish_outs wevs)) else []) /\
+  length (finish_outs wevs) = length (pending_ids s).
+Proof. exact handler_any_schedule. Qed.
+
+(* [c16_stack] for any handler setting, plus: a buffered wrapped sink never panics, so under the
+   coupled hypothesis no delivery outcome is a panic and the panic counter is 0 *)
+Theorem c16_stack_any : forall cap handler evs s rs c e script pay xs w,
+  Queue.run true (init_q cap handler) evs = Some (s, rs) ->
+  Writer.run_from (init c e script) 0 (delivered_ops pay (q_delivered s)) = (xs, w) ->
+  map snd (q_delivered s) = map sout_of xs ->
+  q_handled s = (if handler then werrs (map fst (q_delivered s)) xs else []) /\
+  map fst (q_delivered s) = seq 0 (length (q_delivered s)) /\
+  (forall i, nth_error xs i <> Some OPanic) /\
+  (forall i, nth_error (map snd (q_delivered s)) i <> Some SPanic) /\
+  q_panics s = 0.
+Proof. exact stack_faults_any. Qed.
+
+(* joint non-vacuity of [c16_stack]: the coupled hypothesis in the MIDDLE of a history (a handle
+   alive, the worker processing metric 4, metric 5 queued, the writer not dropped) under the
+   fault script [ok; ok; error 5]; see also c09_stack_joint_witness_1/2 in Props/C09.v *)
+Example c16_stack_joint_witness :
+  let script := [WOk; WOk; WErr 5]%N in
+  match Queue.run true (init_q (Some 2) true)
+          [ETrySend; ETrySend; EWDequeue; ETrySend; ETrySend; EWStep; EIncSubmitted;
+           EWFinish SOk; EWDequeue; EWStep; EClone; ETrySend; EWFinish SOk; EWDequeue; EWStep;
+           EWFinish SOk; EDropH; ETrySend; EWDequeue; EWStep; ETrySend; EWFinish (SErr 5);
+           EWDequeue; EWStep] with
+  | Some (s, rs) =>
+    let '(xs, w) := Writer.run_from (init 8 [10%N] script) 0 (delivered_ops wit_pay (q_delivered s)) in
+    (q_wk s, q_handles s, q_chan s) = (WCounted 4, 1, [Some 5]) /\
+    map snd (q_delivered s) = map sout_of xs /\
+    xs = [OOk 3; OOk 5; OOk 10; OErr 5%N] /\
+    q_handled s = [(3, 5)] /\ q_handled s = werrs (map fst (q_delivered s)) xs /\
+    map fst (sentL (lg w)) = [0] /\ map fst (bids w) = [1] /\ map fst (sentA (lg w)) = [2]
+  | None => False
+  end.
+Proof. exact stack_joint_witness_mid. Qed.
